@@ -31,6 +31,13 @@ def _(p):
     return None if v in ("agree", "dontcare") else f"{v}: formula {' '.join(p['symbols'])!r}: {d}"
 
 
+@replay("c15_ws")
+def _(p):
+    from harness import ch_c15
+
+    return ch_c15.ws_random_check(p["canon"], p["spaced"])
+
+
 @replay("c14_string")
 def _(p):
     from harness import ch_c14
